@@ -87,9 +87,17 @@ class Kernels:
         for ins in ("neg", "not"):
             self.instr_fn[ins] = targets.find_one(mf, r"^implementations::%s$" % ins)
         self.fn = {}
+        self.default_cmp = {}
         for op, pat in FN_PATTERNS.items():
             pred = targets.by_ref_args if op not in ("negate",) else None
-            self.fn[op] = targets.find_one(mf, pat, pred)
+            try:
+                self.fn[op] = targets.find_one(mf, pat, pred)
+            except Inconclusive:
+                if op not in ("lt", "le", "gt", "ge"):
+                    raise
+                # the crate does not override this comparison: PartialOrd's default method, derived from partial_cmp
+                self.fn[op] = targets.find_one(mf, r"^ord::<impl at .*>::partial_cmp$", targets.by_ref_args)
+                self.default_cmp[op] = {"lt": ("Less",), "le": ("Less", "Equal"), "gt": ("Greater",), "ge": ("Greater", "Equal")}[op]
 
     def encoded_functions(self):
         d = {op: {"mir_item": n, "mir_lines": self.mf.func(n).nlines} for op, n in self.fn.items()}
@@ -185,6 +193,11 @@ class Kernels:
                 if isinstance(inner, Adt) and inner.ty == "Primitive" and inner.variant == "Str":
                     paths.append(Path(o.pc, "ok", "Str", inner.fields[0]))
                     continue
+            if op in self.default_cmp:
+                # Option<Ordering> -> bool, as core's default `lt`/`le`/`gt`/`ge` do
+                if not (isinstance(v, Adt) and v.ty == "Option"):
+                    raise Inconclusive("partial_cmp returned %r" % (v,))
+                v = Sc("bool", z3.BoolVal(v.variant == "Some" and models.ordering_name(v.fields[0]) in self.default_cmp[op]))
             if op in CMPS:
                 if not (isinstance(v, Sc) and v.ty == "bool"):
                     raise Inconclusive("%s returned %r" % (op, v))
